@@ -709,6 +709,10 @@ def run(ck):
     check_encreset(ck, prog, "C06-ENCRESET")
     check_end_input(ck, prog)
     check_strmap(ck, prog)
+    # the Check value does not depend on how update() calls slice the data (C14 rules)
+    from . import C14 as _C14
+    _C14.check_sha(ck, prog)
+    _C14.check_datapath(ck, prog)
     from . import C01 as _C01
     _C01.check_emit_state(ck, prog, "C06-EMITSTATE")
     ck.rule("C06-APPLY", "an amount measured in this call (bytes used, padding found) is applied to the persistent member "
